@@ -63,7 +63,7 @@ def indexArr (xs : List (Val N)) (i : Int) : Val N :=
 
 variable [NumOps N]
 
-def compare (op : Cmp) (l r : Val N) : Val N :=
+def compareVals (op : Cmp) (l r : Val N) : Val N :=
   match op with
   | .eq => .bool (Val.deepEq l r)
   | .ne => .bool (!Val.deepEq l r)
@@ -87,7 +87,7 @@ def eval (ft : List FnEntry) : Node N → Val N → Res (Val N)
     match eval ft l d with
     | .ok lv =>
       (match eval ft r d with
-       | .ok rv => .ok (compare op lv rv)
+       | .ok rv => .ok (compareVals op lv rv)
        | e => e)
     | e => e
   | .current, d => .ok d
